@@ -463,8 +463,8 @@ def stream_molecule(ctx):
     of = ctx.of
     from openfermion.chem import MolecularData
     s = Stream('molecular-data', 'MolecularData.save() / load() with random attribute assignments (energies set or None, integral and '
-               'RDM arrays, general_calculations, geometry as list): every attribute of the reloaded object equals the saved one '
-               '(arrays exactly, None stays None); a second save/load cycle changes nothing')
+               'RDM arrays, general_calculations (also empty), zero-valued scalars, geometry as list): after each of three save/load cycles '
+               'every attribute of the reloaded object equals the saved one (arrays exactly, None stays None, 0 stays 0, atoms a list of str)')
     rng = rng_for(ctx.seed, 'c20-mol')
     base = tempfile.mkdtemp(prefix='ofv_c20m_', dir=os.environ.get('TMPDIR'))
     scalars = ['nuclear_repulsion', 'hf_energy', 'mp2_energy', 'cisd_energy', 'fci_energy', 'ccsd_energy']
@@ -507,25 +507,20 @@ def stream_molecule(ctx):
             try:
                 m.save()
                 m2 = MolecularData(filename=fn)
-            except Exception as e:  # noqa: BLE001
-                s.violate('MolecularData.save / load raised', c, repr(e))
-                continue
-            if not hasattr(m2, 'general_calculations'):
-                s.violate('MolecularData loaded from a file saved with empty general_calculations has no general_calculations '
-                          'attribute (a second save() raises AttributeError)', c, {'assigned_general_calculations': 'general_calculations' in want})
-                m2.general_calculations = {}
-            try:
                 m2.save()
                 m3 = MolecularData(filename=fn)
+                m3.save()
+                m4 = MolecularData(filename=fn)
             except Exception as e:  # noqa: BLE001
-                s.violate('MolecularData second save / load raised', c, repr(e))
+                s.violate('MolecularData.save / load raised (three save/load cycles)', c, repr(e))
                 continue
-            if not hasattr(m3, 'general_calculations'):
-                m3.general_calculations = {}
-            for label, mm in (('first', m2), ('second', m3)):
+            for label, mm in (('first', m2), ('second', m3), ('third', m4)):
                 bad = []
                 for a in scalars + ints + list(arrays) + ['general_calculations']:
                     v0 = want.get(a, getattr(m, a))
+                    if a == 'general_calculations' and not hasattr(mm, a):
+                        bad.append((a, repr(v0), 'attribute missing'))
+                        continue
                     try:
                         v1 = getattr(mm, a)
                     except Exception as e:  # noqa: BLE001
@@ -564,33 +559,10 @@ def stream_molecule(ctx):
 
 
 def classify(v):
-    what = v.get('what', '')
-    if v.get('stream') == 'molecular-data':
-        if what.startswith('MolecularData save/load does not return the atoms attribute'):
-            return 'C20-moldata-atoms'
-        if what.startswith('MolecularData loaded from a file saved with empty general_calculations') \
-                and not (v.get('detail') or {}).get('assigned_general_calculations'):
-            return 'C20-moldata-general-calculations'
     return None
 
 
 def probe_known(ctx, k):
-    from openfermion.chem import MolecularData
-    base = tempfile.mkdtemp(prefix='ofv_c20p_', dir=os.environ.get('TMPDIR'))
-    try:
-        fn = os.path.join(base, 'h2')
-        m = MolecularData([('H', (0.0, 0.0, 0.0)), ('H', (0.0, 0.0, 0.7414))], 'sto-3g', 1, filename=fn)
-        m.save()
-        m2 = MolecularData(filename=fn)
-        if k['id'] == 'C20-moldata-general-calculations':
-            return not hasattr(m2, 'general_calculations')
-        if k['id'] == 'C20-moldata-atoms':
-            a = m2.atoms.tolist() if hasattr(m2.atoms, 'tolist') else m2.atoms
-            return a != ['H', 'H']
-    except Exception:  # noqa: BLE001
-        return True
-    finally:
-        shutil.rmtree(base, ignore_errors=True)
     return False
 
 
